@@ -90,8 +90,11 @@ def run_prog(args, hook=None):
                 a, n = take(2); prs = take(2 * int(n))
                 items = [mk_item(prs[2 * k], prs[2 * k + 1]) for k in range(int(n))]
                 top = stack[-1]
+                # the iterable kind is a function of the case text: a list, a one-shot iterator, a generator or a tuple must all do
+                sel = (sum(len(x) for x in prs) + int(n)) % 4
+                feed = [items, iter(items), (x for x in items), tuple(items)][sel]
                 try:
-                    res = list(top.filter(items, prereleases=TRI[a])) if not (a == "N" and int(n) % 2) else list(top.filter(items))
+                    res = list(top.filter(feed, prereleases=TRI[a])) if not (a == "N" and int(n) % 2) else list(top.filter(feed))
                     pos = positions(items, res)
                     if pos is None: out.append("[!not-the-input-objects-in-input-order]")
                     else: out.append("[" + ".".join("%d%s" % (p, prs[2 * p]) for p in pos) + "]")
